@@ -157,7 +157,7 @@ func TestVerifC08Seq(t *testing.T) {
 		for _, id := range ids {
 			ops = append(ops, c08SeqOp{"del", id})
 		}
-		ops = append(ops, c08SeqOp{"del", 5})
+		ops = append(ops, c08SeqOp{"del", 5}, c08SeqOp{"del", next + 5}) // non-existing: below everything, above the tail
 		xs := map[uint64]bool{0: true, 15: true}
 		for _, id := range added {
 			xs[id] = true
